@@ -29,8 +29,11 @@ def dgh(b):
 def make_policy(p):
     if p["kind"] == "raw":
         return scpsim.RawScript(p["events"], pad=p.get("pad", 0), pad_step=p.get("pad_step", 1000))
-    return scpsim.FaultSim(p["plan"], exact=p.get("exact", ()), max_selects=p.get("max_selects", 20000),
-                           late=p.get("late"))
+    sim = scpsim.FaultSim(p["plan"], exact=p.get("exact", ()), max_selects=p.get("max_selects", 20000),
+                          late=p.get("late"))
+    if p.get("full_replies"):
+        sim.responder = lambda net, tx, data, rc: scpsim.echo_responder(net, tx, data, rc, full=True)
+    return sim
 
 
 def call_send_scp(conn, bs, f, op):
@@ -64,7 +67,13 @@ def run_case(c):
     net.buffer_size = bs = c.get("buffer_size", 256)
     restore = net.install(scp_connection)
     try:
-        conn = SCPConnection("127.0.0.1", n_tries=c["n_tries"], timeout=c["timeout"])
+        if c.get("positional"):        # (spinnaker_host, port, n_tries, timeout), as discover_connections passes them
+            conn = SCPConnection("127.0.0.1", 17893, c["n_tries"], c["timeout"])
+        else:
+            conn = SCPConnection("127.0.0.1", n_tries=c["n_tries"], timeout=c["timeout"])
+        if (conn.n_tries, conn.default_timeout) != (c["n_tries"], c["timeout"]):
+            raise AssertionError("SCPConnection stored n_tries/timeout %r, constructed with %r"
+                                 % ((conn.n_tries, conn.default_timeout), (c["n_tries"], c["timeout"])))
         for _ in range(c.get("advance_seq", 0)):
             next(conn.seq)
         bursts = []
@@ -72,6 +81,8 @@ def run_case(c):
             if op["op"] == "idle":
                 net.now += op["dt"]
                 continue
+            # buffer_size is an argument of every call: it may differ from call to call on one connection
+            net.buffer_size = bs = op.get("buffer_size", c.get("buffer_size", 256))
             lo, elo = net.mark()
             start = dict(now=net.now, ntx=net.ntx, buf=[dg(b) for b in net.buf])
             ret = None
